@@ -265,6 +265,10 @@ def dirdiff(ctx):
             n *= s
         x0 = Arr(shape, [Poly.sym('x%d' % k) for k in range(n)])
         v = Arr(shape, [Poly.sym('v%d' % k) for k in range(n)])
+        # (v is not zero: its largest magnitude is positive - a scale a careful implementation may divide by first)
+        from ..absint import sym_minmax
+        vmax = sym_minmax('max', [ndarr.s_abs(e) for e in v.items()])
+        ndarr.POSITIVE_ATOMS.update(vmax.atoms())
         captured = {}
 
         def on_call(fn, args, kwargs, node, fr):
